@@ -129,10 +129,12 @@ Qed.
 (* ---------------------------------------------------------------- consequences on chained traces *)
 Lemma chained_app st tr1 tr2 :
   chained st (tr1 ++ tr2) <-> chained st tr1 /\ chained (final_state st tr1) tr2.
-Proof.
-  revert st; induction tr1 as [|r tr1 IH]; intros st; simpl.
-  - tauto.
-  - unfold final_state in *; simpl. rewrite IH. tauto.
+Proof using.
+  revert st; induction tr1 as [|r tr1 IH]; intros st.
+  - simpl. split; [intros Hc; split; [exact I|exact Hc]|intros [_ Hc]; exact Hc].
+  - change (final_state st (r :: tr1)) with (final_state (sr_after r) tr1). simpl. rewrite IH.
+    split; [intros [A [B C]]; split; [split; [exact A|exact B]|exact C]
+           |intros [[A B] C]; split; [exact A|split; [exact B|exact C]]].
 Qed.
 
 Lemma final_state_app st tr1 tr2 :
